@@ -24,7 +24,7 @@ import (
 
 func TestC13VirtualTime(t *testing.T) {
 	sub := lab.Sub("accounting-virtual-time", "rapid histories in virtual time against the real balancer with scripted backends: {request good/4xx/5xx/unreachable/abort-mid-body, request with an already cancelled client context, "+
-		"park a request in a backend, release it (good/5xx), advance 300ms..3s across 1 s unhealthy windows}, passive checks (threshold 1-2, window 1 s) / limiter / breaker on or off, 5 strategies, 1-3 backends; "+
+		"park a request in a backend, release it (good/5xx), remove and re-register a backend (also while requests are parked in it), advance 300ms..3s across 1 s unhealthy windows and the 1 s breaker timeout}, passive checks (threshold 1-2, window 1 s) / limiter / breaker on or off, 5 strategies, 1-3 backends; "+
 		"books A1-A4 checked after every event; non-trivial = a request was still parked when its backend was ejected or re-admitted, or a cancelled-context / aborted request occurred")
 	sub.NontrivialFloor(0.40)
 	lab.Assume("L1: scripted RoundTripper replaces http.Transport; ErrAbortHandler recovered by the harness as net/http's server would")
@@ -45,7 +45,7 @@ func TestC13VirtualTime(t *testing.T) {
 			cfg.RateLimit = config.RateLimitConfig{Enabled: true, MaxTokens: 4, RefillRate: 2}
 		}
 		if breaker {
-			cfg.CircuitBreaker = config.CircuitBreakerConfig{Enabled: true, FailureThreshold: 3, SuccessThreshold: 1, MaxRequests: 2, IntervalSeconds: 5, TimeoutSeconds: 2}
+			cfg.CircuitBreaker = config.CircuitBreakerConfig{Enabled: true, FailureThreshold: 2, SuccessThreshold: 1, MaxRequests: 1, IntervalSeconds: 5, TimeoutSeconds: 1}
 		}
 		if err := cfg.Validate(); err != nil {
 			rt.Fatalf("harness: %v", err)
@@ -65,10 +65,13 @@ func TestC13VirtualTime(t *testing.T) {
 			defer func() { fn.ReleaseAll(); synctest.Wait() }()
 			sent, completed, limited := 0, 0, 0
 			done := map[string]int{}   // completed arrivals per host
-			parked := map[string]int{} // requests currently parked per host
+			parked := map[string]int{}    // requests parked in the currently registered instance, per host
+			parkedOld := map[string]int{} // requests still parked in an instance that has been removed since (same name)
+			gen := map[string]int{}       // how often the backend of this host was removed and re-registered
 			type held struct {
 				host string
 				ch   chan int
+				gen  int
 			}
 			var holds []held
 			books := func(when string) string {
@@ -97,13 +100,15 @@ func TestC13VirtualTime(t *testing.T) {
 					if int(tot) != done[host] {
 						return fmt.Sprintf("%s: A3 backend_metrics[%s].total_requests=%d but %d requests sent to it have completed", when, name, tot, done[host])
 					}
-					if int(gauge) != parked[host] || int(list[name]) != parked[host] {
-						return fmt.Sprintf("%s: A4 %s has %d request(s) in flight, gauge reads %d in /metrics and %d in /v1/backends", when, name, parked[host], gauge, list[name])
+					// /metrics keeps one gauge per backend NAME (requests still running in a removed instance of
+					// that name are in flight under that name); /v1/backends lists the registered instance
+					if int(gauge) != parked[host]+parkedOld[host] || int(list[name]) != parked[host] {
+						return fmt.Sprintf("%s: A4 %s has %d request(s) in flight (+%d in a removed instance of the same name), gauge reads %d in /metrics and %d in /v1/backends", when, name, parked[host], parkedOld[host], gauge, list[name])
 					}
 				}
 				return ""
 			}
-			behaviours := []lab.Behaviour{lab.Good, lab.Good, lab.Status4xx, lab.Status5xx, lab.Status5xx, lab.Unreachable, lab.AbortBody}
+			behaviours := []lab.Behaviour{lab.Good, lab.Good, lab.Status4xx, lab.Status5xx, lab.Status5xx, lab.Unreachable, lab.AbortBody, lab.Interim5xx, lab.InterimGood}
 			for s := 0; s < steps && viol == ""; s++ {
 				k := rapid.IntRange(0, 99).Draw(rt, "op")
 				client := fmt.Sprintf("10.2.0.%d:999", rapid.IntRange(1, 6).Draw(rt, "client"))
@@ -168,7 +173,7 @@ func TestC13VirtualTime(t *testing.T) {
 					} else {
 						h := fn.HostAt(before)
 						parked[h]++
-						holds = append(holds, held{h, ch})
+						holds = append(holds, held{h, ch, gen[h]})
 						hist = append(hist, "park->"+h)
 					}
 				case k < 78: // release
@@ -188,10 +193,29 @@ func TestC13VirtualTime(t *testing.T) {
 					fn.Release(h.host, as)
 					synctest.Wait()
 					<-h.ch
-					parked[h.host]--
+					if h.gen == gen[h.host] {
+						parked[h.host]--
+					} else {
+						parkedOld[h.host]--
+					}
 					done[h.host]++
 					completed++
 					hist = append(hist, fmt.Sprintf("release(%s,%v)", h.host, as))
+				case k < 86: // an operator removes a backend (possibly with requests in flight) and registers it again
+					i := rapid.IntRange(0, nb-1).Draw(rt, "readd")
+					name, host := lab.BackendName(i), lab.BackendHost(i)
+					lb.RemoveBackend(name)
+					if err := lb.AddBackend(config.BackendConfig{Name: name, Address: "http://" + host, Weight: 1}); err != nil {
+						rt.Fatalf("harness: re-add: %v", err)
+					}
+					fn.Install(lb)
+					if parked[host] > 0 {
+						interesting = true
+					}
+					hist = append(hist, fmt.Sprintf("remove+add(%s, %d in flight)", name, parked[host]))
+					parkedOld[host] += parked[host]
+					parked[host] = 0
+					gen[host]++
 				default:
 					d := rapid.SampledFrom([]time.Duration{300 * time.Millisecond, 900 * time.Millisecond, 1100 * time.Millisecond, 2100 * time.Millisecond, 3 * time.Second}).Draw(rt, "d")
 					time.Sleep(d)
